@@ -418,11 +418,23 @@ BOTTOM = Zone()
 BOTTOM.bottom = True
 
 
+def _typed_nonneg(z):
+    """variables that carry their own unsigned type (a length; the value of an `as uN` cast of a location): >= 0 in every state"""
+    return {v for v in z.vars() if v != Z and (v[0] == 'len' or (v[0] == 'loc' and v[1] and isinstance(v[1][-1], tuple)
+                                                                and v[1][-1][0] == 'cast' and v[1][-1][1] in UNSIGNED_BITS))}
+
+
 def join(a, b_, keep):
     if a.bottom:
         return b_.copy()
     if b_.bottom:
         return a.copy()
+    tv = _typed_nonneg(a) | _typed_nonneg(b_)
+    if tv:
+        a, b_ = a.copy(), b_.copy()
+        for v in tv:
+            a.add(Z, v, 0)
+            b_.add(Z, v, 0)
     da, db = a.closed(keep), b_.closed(keep)
     if a.bottom:
         return b_.copy()
@@ -465,6 +477,10 @@ class BoundsAnalysis:
         self.calls_made = {}       # crate-local callee key -> [projected zone per call site]
         self.arith = {}            # point -> verdict for Overflow / division asserts
         self.tainted = set()       # variables computed by a subtraction that is not known to stay >= 0 (wraps in release builds)
+        self.summaries = {}        # crate-local callee key -> exit zone over its parameters / return value (see exit_summary)
+        self.clamps = {}           # point of a `clamp(min, max)` call -> verdict for its `min <= max` assertion
+        self.slices = {}           # point of a `byte_slice(start..end)` call -> verdict for `start <= end`
+        self._exit = {}            # return block -> state at the return
 
     # ---- variables
     def is_int(self, ty):
@@ -627,6 +643,9 @@ class BoundsAnalysis:
                         self.set_var(z, x, None)
                     if dty in UNSIGNED_BITS:
                         z.add(Z, x, 0)
+                        if fty in UNSIGNED_BITS and src is not None and src[0] not in self.tainted:
+                            # truncation of an unsigned value never increases it
+                            z.add(x, src[0], src[1])
                 return
             if r['k'] == 'bin':
                 self.assign_bin(z, x, r)
@@ -872,6 +891,17 @@ class BoundsAnalysis:
         if not dest['pr']:
             self.cmp.pop(dest['l'], None)
         if local_callee is not None:
+            summ = self.summaries.get(local_callee.key)
+            if summ is not None and local_callee.d['kind'] != 'Closure':
+                self.apply_summary(z, t, local_callee, summ, dx if dty in INT_TYS else None)
+            if name == 'len' and len(args) == 1 and dty == 'usize' and (self.operand_ty(args[0]) or '').startswith('&') \
+                    and not (self.operand_ty(args[0]) or '').startswith('&mut'):
+                # a crate-local `len(&self) -> usize` is an observer: two calls on an unchanged receiver agree (the value is kept
+                # under the receiver's length variable, which every write to the receiver forgets)
+                cv = self.container_var(args[0])
+                if cv is not None:
+                    z.assign(dx, cv, 0)
+                    z.add(Z, cv, 0)
             return
         if name == 'len' and len(args) == 1:
             cv = self.container_var(args[0])
@@ -891,12 +921,41 @@ class BoundsAnalysis:
                 z.add(i[0], cv, -1 - i[1])
         elif name in ('min', 'max') and len(args) == 2 and dty in INT_TYS:
             A, B = self.operand(args[0]), self.operand(args[1])
+            # what bounds both arguments from below (above) bounds their minimum (maximum)
+            both = []
+            if A is not None and B is not None:
+                zz = z.copy()
+                for y in list(zz.vars()):
+                    if y == dx or y in self.tainted:
+                        continue
+                    if name == 'min':
+                        c1 = zz.bound(y, A[0]) if y != A[0] else 0
+                        c2 = zz.bound(y, B[0]) if y != B[0] else 0
+                        if c1 is not None and c2 is not None:
+                            both.append((y, max(c1 - A[1], c2 - B[1])))       # y - min <= c
+                    else:
+                        c1 = zz.bound(A[0], y) if y != A[0] else 0
+                        c2 = zz.bound(B[0], y) if y != B[0] else 0
+                        if c1 is not None and c2 is not None:
+                            both.append((y, max(c1 + A[1], c2 + B[1])))       # max - y <= c
             for X in (A, B):
                 if X is not None:
                     if name == 'min':
                         z.add(dx, X[0], X[1])
                     else:
                         z.add(X[0], dx, -X[1])
+            for y, c in both:
+                if name == 'min':
+                    z.add(y, dx, c)
+                else:
+                    z.add(dx, y, c)
+        elif name == 'clamp' and len(args) == 3 and dty in INT_TYS:
+            # returns normally only when min <= max; the result then lies between the limits
+            lo_, hi_ = self.operand(args[1]), self.operand(args[2])
+            if lo_ is not None:
+                z.add(lo_[0], dx, -lo_[1])
+            if hi_ is not None:
+                z.add(dx, hi_[0], hi_[1])
         elif name == 'saturating_sub' and len(args) == 2 and dty in UNSIGNED_BITS:
             A, B = self.operand(args[0]), self.operand(args[1])
             if A is not None:
@@ -1008,6 +1067,89 @@ class BoundsAnalysis:
                         out.add((kind, C2), (kind, C), 0)
         return out
 
+    def exit_summary(self):
+        """what holds on every normal return of this function among: integer parameters that the body never reassigns, memory
+        reachable through reference parameters (as it is at the return), and the returned integer.  Valid for every caller
+        (computed without assumptions about the arguments)."""
+        b = self.b
+        zs = [z for z in self._exit.values() if not z.bottom and z.consistent()]
+        if not zs or b.d['kind'] == 'Closure':
+            return None
+        e = zs[0]
+        for z2 in zs[1:]:
+            e = join(e, z2, None)
+        ok_roots = {}
+        for a in range(1, b.arg_count + 1):
+            if b.defs(a):
+                continue                       # reassigned (or partially written) parameter: its exit value is not the argument
+            ty = b.local_ty(a)
+            if ty in INT_TYS:
+                ok_roots[a] = 'int'
+            elif ty.startswith('&'):
+                ok_roots[a] = 'ref'
+        keep = set()
+        for v in e.vars():
+            if v == Z:
+                keep.add(v)
+                continue
+            loc = v[1]
+            if not loc or not isinstance(loc[0], int) or v in self.tainted:
+                continue
+            if loc == (0,) and v[0] == 'loc' and b.local_ty(0) in INT_TYS:
+                keep.add(v)
+            elif ok_roots.get(loc[0]) == 'int' and len(loc) == 1 and v[0] == 'loc':
+                keep.add(v)
+            elif ok_roots.get(loc[0]) == 'ref' and all(isinstance(x, tuple) and x and x[0] == 'f' for x in loc[1:]):
+                keep.add(v)
+        out = Zone()
+        for (y, x), c in e.copy().closed(keep).items():
+            out.e[(y, x)] = c
+        return out if out.e else None
+
+    def apply_summary(self, z, t, cb, summ, dx):
+        """add the callee's exit facts, renamed to the caller's locations, to the state on the normal-return edge (after the
+        memory the call may have changed was forgotten)"""
+        ren = {}
+        for i, a in enumerate(t['args']):
+            pl = i + 1
+            if pl > cb.arg_count:
+                break
+            if a['k'] == 'const':
+                if 'int' in a:
+                    ren[pl] = ('const', a['int'])
+                continue
+            if a['k'] not in ('copy', 'move'):
+                continue
+            if cb.local_ty(pl) in INT_TYS:
+                o = self.operand(a)
+                if o is not None and o[0] != dx:
+                    ren[pl] = ('int', o)
+                continue
+            P = loc_of_place(self.b, a['p'])
+            if P is not None:
+                ren[pl] = ('mem', P)
+
+        def tr(v):
+            if v == Z:
+                return (Z, 0)
+            loc = v[1]
+            if loc == (0,):
+                return (dx, 0) if dx is not None else None
+            m = ren.get(loc[0])
+            if m is None:
+                return None
+            if m[0] == 'const':
+                return (Z, m[1]) if len(loc) == 1 and v[0] == 'loc' else None
+            if m[0] == 'int':
+                return m[1] if len(loc) == 1 and v[0] == 'loc' else None
+            return ((v[0], m[1] + loc[1:]), 0)
+        for (y, x), c in summ.e.items():
+            X, Y = tr(x), tr(y)
+            if X is None or Y is None:
+                continue
+            # (X + ox) - (Y + oy) <= c
+            z.add(X[0], Y[0], c - X[1] + Y[1])
+
     def project(self, z, agg):
         """constraints among the locations a closure captures immutably, renamed into the closure's own locations"""
         cb = self.f.body(agg.get('path'))
@@ -1077,6 +1219,9 @@ class BoundsAnalysis:
             for s in items:
                 for l in _locals_in(s):
                     use[bi].add(l)
+            if b.term(bi)['k'] == 'return':
+                use[bi].add(0)              # the return place and the parameters are read by the exit summary
+                use[bi].update(range(1, b.arg_count + 1))
         # cheap over-approximation: a local is live out of bb if it is mentioned in any block reachable from bb's successors
         reach_use = [None] * n
         order = list(range(n))
@@ -1179,6 +1324,8 @@ class BoundsAnalysis:
                     outs.append((t['t'], z))
             elif t['k'] == 'goto':
                 outs.append((t['t'], z))
+            elif t['k'] == 'return':
+                self._exit[bi] = z.copy()
             merged = {}
             for tb, z2 in outs:
                 if z2.bottom or not z2.consistent():
@@ -1221,8 +1368,62 @@ class BoundsAnalysis:
         return self.sites
 
     # ---- obligations
+    def _range_ops(self, o):
+        """(start, end) operands of a `start..end` literal an operand holds, else None"""
+        if o['k'] not in ('copy', 'move') or o['p']['pr']:
+            return None
+        d = _single_def(self.b, o['p']['l'])
+        if d is None or d[1] != 'assign':
+            return None
+        r = d[2]['r']
+        if r['k'] == 'use' and r['o']['k'] in ('copy', 'move'):
+            return self._range_ops(r['o'])
+        if r['k'] == 'agg' and (r.get('path') or '').endswith('ops::Range') and len(r['ops']) == 2:
+            return r['ops'][0], r['ops'][1]
+        return None
+
+    def check_slice(self, z, t, pt):
+        """`byte_slice(start..end)` panics when start > end (and when end exceeds the text, which is not decided here)"""
+        ro = self._range_ops(t['args'][1])
+        ok, why = False, 'the range is not a `start..end` literal'
+        if z.bottom:
+            ok, why = True, 'unreachable'
+        elif ro is not None:
+            lo, hi = self.operand(ro[0]), self.operand(ro[1])
+            why = 'no order between start and end on some path'
+            if lo is not None and hi is not None:
+                zz = z.copy()
+                bd = zz.bound(lo[0], hi[0]) if lo[0] != hi[0] else 0
+                if zz.bottom:
+                    ok, why = True, 'unreachable'
+                elif lo[0] in self.tainted or hi[0] in self.tainted:
+                    why = 'a bound is computed by a subtraction that is not known to stay >= 0'
+                elif bd is not None and bd + lo[1] - hi[1] <= 0:
+                    ok, why = True, 'start - end <= %d' % (bd + lo[1] - hi[1])
+        self.slices[pt] = {'ok': ok, 'why': why, 'span': t['s'], 'recv': (t.get('arg_tys') or ['?'])[0]}
+
     def check_site(self, z, t, pt):
         c = t.get('callee') or {}
+        if c.get('name') == 'byte_slice' and len(t['args']) == 2 and 'Range<usize>' in ((t.get('arg_tys') or ['', ''])[1]):
+            self.check_slice(z, t, pt)
+            return
+        if c.get('name') == 'clamp' and len(t['args']) == 3 and not c.get('local') and (t.get('arg_tys') or [''])[0] in INT_TYS:
+            # Ord::clamp asserts min <= max
+            lo, hi = self.operand(t['args'][1]), self.operand(t['args'][2])
+            ok, why = False, 'no order between the two limits on some path'
+            if z.bottom:
+                ok, why = True, 'unreachable'
+            elif lo is not None and hi is not None:
+                zz = z.copy()
+                bd = zz.bound(lo[0], hi[0]) if lo[0] != hi[0] else 0
+                if zz.bottom:
+                    ok, why = True, 'unreachable'
+                elif lo[0] in self.tainted or hi[0] in self.tainted:
+                    why = 'a limit is computed by a subtraction that is not known to stay >= 0'
+                elif bd is not None and bd + lo[1] - hi[1] <= 0:
+                    ok, why = True, 'min - max <= %d' % (bd + lo[1] - hi[1])
+            self.clamps[pt] = {'ok': ok, 'why': why, 'span': t['s'], 'ty': (t.get('arg_tys') or ['?'])[0]}
+            return
         if c.get('name') in ('get', 'get_mut') and len(t['args']) == 2 and (t.get('arg_tys') or ['', ''])[1] == 'usize' \
                 and not (c.get('local')):
             # a checked access cannot go out of bounds, but its index expression can still underflow (a panic in overflow-checked
@@ -1486,6 +1687,7 @@ def _analyse_crate(facts, want=None, keep=None):
         return has_sites, has_closures
     # which crate-local functions does somebody call?  (every body is scanned, also those without index sites)
     fn_entries = {}
+    summaries = {}
     out = {}
 
     def run_all(use_fn_entries):
@@ -1499,6 +1701,7 @@ def _analyse_crate(facts, want=None, keep=None):
             if not has_sites and not has_closures and not calls_local and not (keep is not None and want and b.key in want):
                 continue
             a = BoundsAnalysis(facts, b)
+            a.summaries = summaries if use_fn_entries else {}
             if b.d['kind'] == 'Closure':
                 zs = entries.get(b.path)
                 if zs:
@@ -1509,6 +1712,10 @@ def _analyse_crate(facts, want=None, keep=None):
             elif use_fn_entries and b.key in fn_entries:
                 a.entry = fn_entries[b.key]
             sites = a.run()
+            if not use_fn_entries:
+                sm = a.exit_summary()
+                if sm is not None:
+                    summaries[b.key] = sm
             if keep is not None:
                 keep[b.key] = a
             for pt, (path, z) in a.closure_made.items():
@@ -1533,7 +1740,7 @@ def _analyse_crate(facts, want=None, keep=None):
             e = join(e, z2, None)
         if e.e:
             fn_entries[k] = e
-    if fn_entries:
+    if fn_entries or summaries:
         out, _ = run_all(True)
     return out
 
@@ -2050,5 +2257,105 @@ def rule_position_add(ctx, config='dev'):
                     'map with a huge value there makes map() panic in overflow-checked builds' % (
                         len(lst), key[1], key[0], allowed, (' for: ' + reason) if reason else '',
                         '; '.join('%s (%s)' % (v['span'], v['why']) for m, v, inst in lst)))
+    r.check_floor()
+    return r
+
+
+def rule_clamp_order(ctx, config='dev'):
+    """`Ord::clamp(min, max)` panics when min > max"""
+    f = ctx.facts(config)
+    r = RuleResult('CLAMP-ORDER', 'every integer `clamp(min, max)` in the crate is called with limits that are proven ordered '
+                                  '(min <= max) on every path reaching it: `Ord::clamp` asserts that order, which the hand-written '
+                                  '`.max(a).min(b)` it usually replaces does not need')
+    r.floor = 0
+    keep = {}
+    analyse_crate(f, keep=keep)
+    n_calls = 0
+    for b in f.body_list:
+        if b.promoted is not None:
+            continue
+        for pt, t in b.calls():
+            c = t.get('callee') or {}
+            if c.get('name') == 'clamp' and len(t['args']) == 3 and not c.get('local') and (t.get('arg_tys') or [''])[0] in INT_TYS:
+                n_calls += 1
+                a = keep.get(b.key)
+                v = a.clamps.get(pt) if a is not None else None
+                if v is None:
+                    v = {'ok': False, 'why': 'call site not analysed', 'span': t['s']}
+                r.site('%s: clamp limits ordered: %s' % (b.path, v['why']), t['s'], 'ok' if v['ok'] else 'violation')
+                if not v['ok']:
+                    r.violation('%s:clamp' % b.path, t['s'], b.path,
+                                '`clamp(min, max)` with limits that are not proven ordered (%s): it panics ("assertion failed: min <= '
+                                'max") for the inputs that make min exceed max, e.g. a replacement that ends beyond the text' % v['why'])
+    r.info('%d integer clamp call(s) in the crate' % n_calls)
+    return r
+
+
+# `byte_slice(start..end)` sites whose `start <= end` is not proven on the pinned tree, each confirmed by reading the code; grouped by
+# the function (closures folded into their parent) so that a new unproven site anywhere is reported
+SLICE_ASSUMED = {
+    'ReplaceSource<T> as helpers::StreamChunks>::stream_chunks': (
+        2, 'ReplaceSource::stream_chunks: (i) `chunk_pos..chunk_pos + offset`, end = start plus an unsigned value (the order can only '
+           'fail if that u32 addition overflows, an overflow obligation and not a range one); (ii) `chunk_pos..chunk.len()` directly '
+           'under the guard `(chunk_pos as usize) < chunk.len()` — `chunk_pos` is computed by position subtractions whose range the '
+           'domain does not establish, so facts about it are not used'),
+}
+
+
+def rule_slice_order(ctx, config='dev'):
+    """byte_slice(start..end) is called with start <= end"""
+    f = ctx.facts(config)
+    r = RuleResult('SLICE-ORDER', 'every `byte_slice(start..end)` of a rope / source text is called with `start <= end` proven on every '
+                                  'path reaching it, or is one of the listed sites whose order follows from an invariant the domain '
+                                  'cannot express: `Rope::byte_slice` panics on a reversed range')
+    r.floor = 6
+    keep = {}
+    analyse_crate(f, keep=keep)
+    unproven = {}
+    for b in f.body_list:
+        if b.promoted is not None:
+            continue
+        a = keep.get(b.key)
+        for pt, t in b.calls():
+            c = t.get('callee') or {}
+            if not (c.get('name') == 'byte_slice' and len(t['args']) == 2 and 'Range<usize>' in ((t.get('arg_tys') or ['', ''])[1])):
+                continue
+            ro = t['args'][1]
+            for _ in range(3):      # through copies of the parameter
+                if ro['k'] in ('copy', 'move') and not ro['p']['pr'] and not b.is_arg(ro['p']['l']):
+                    d_ = _single_def(b, ro['p']['l'])
+                    if d_ is not None and d_[1] == 'assign' and d_[2]['r']['k'] == 'use' and d_[2]['r']['o']['k'] in ('copy', 'move'):
+                        ro = d_[2]['r']['o']
+                        continue
+                break
+            if ro['k'] in ('copy', 'move') and not ro['p']['pr'] and b.is_arg(ro['p']['l']) and not b.defs(ro['p']['l']):
+                continue            # forwards the range it was given: the obligation is its callers'
+            v = a.slices.get(pt) if a is not None else None
+            if v is None:
+                v = {'ok': False, 'why': 'call site not analysed', 'span': t['s'], 'recv': '?'}
+            root = (b.d.get('root') or b.path)
+            root = root.split('::{closure')[0]
+            inst = '%s: byte_slice range ordered' % b.path
+            if v['ok']:
+                r.site(inst + ': ' + v['why'], t['s'], 'ok')
+            else:
+                unproven.setdefault(root, []).append((b, t, v, inst))
+    for root, lst in sorted(unproven.items()):
+        allowed, reason = 0, None
+        for k, (n_, why_) in SLICE_ASSUMED.items():
+            if k in root:
+                allowed, reason = n_, why_
+        if len(lst) <= allowed:
+            for b, t, v, inst in lst:
+                r.site(inst + ': not proven; assumed: ' + reason, t['s'], 'assumed')
+            r.assumptions.append('%s: %s' % (root, reason))
+            continue
+        for b, t, v, inst in lst:
+            r.site(inst + ': ' + v['why'], t['s'], 'violation')
+        r.violation('%s:%d>%d' % (root, len(lst), allowed), lst[0][1]['s'], lst[0][0].path,
+                    '%d `byte_slice(start..end)` call(s) in %s without a proof of `start <= end` (at most %d accepted%s): %s — '
+                    '`Rope::byte_slice` panics on a reversed range' % (
+                        len(lst), root, allowed, (' for: ' + reason) if reason else '',
+                        '; '.join('%s (%s)' % (t['s'], v['why']) for b, t, v, inst in lst)))
     r.check_floor()
     return r
